@@ -1,5 +1,6 @@
 import Martian.Lemmas.H2Relay
 import Martian.Generated.H2Relay
+import Martian.Props.C08.Hpack
 /-!
 C08 — HTTP/2 relay delivers each stream's frames faithfully for any framing and order.
 
